@@ -347,7 +347,7 @@ pub fn rr_spec() -> impl Strategy<Value = RrSpec> {
 pub fn opt_rr() -> impl Strategy<Value = RrSpec> {
     (
         prop_oneof![9 => Just(MName::root()), 1 => gen_name()],
-        prop_oneof![Just(0u16), Just(511), Just(512), Just(1232), Just(4096), Just(65535), any::<u16>()],
+        prop_oneof![Just(0u16), Just(511u16), Just(512u16), Just(1232u16), Just(4096u16), Just(65535u16), any::<u16>(), 513u16..1400, 513u16..1400],
         prop_oneof![6 => Just(0u32), 1 => Just(0x0000_8000u32), 1 => Just(0x0001_0000u32), 1 => Just(0x8000_0000u32), 1 => Just(0x8001_0000u32), 2 => any::<u32>()],
         prop::collection::vec((any::<u16>(), prop::collection::vec(any::<u8>(), 0..6)), 0..3),
         prop::option::weighted(0.08, prop::collection::vec(any::<u8>(), 1..4)),
@@ -397,6 +397,17 @@ pub fn mutation() -> impl Strategy<Value = Mutation> {
     prop_oneof![
         3 => any::<u16>().prop_map(Mutation::Truncate),
         2 => prop::collection::vec(any::<u8>(), 1..12).prop_map(Mutation::Append),
+        // trailing octets with structure: chains of (type, length, data) as in RFC 8490 DSO messages, zero fill
+        2 => prop::collection::vec((prop_oneof![Just(0u16), Just(1u16), Just(2u16), any::<u16>()], prop::collection::vec(prop_oneof![Just(0u8), any::<u8>()], 0..10)), 1..3).prop_map(|tlvs| {
+            let mut out = Vec::new();
+            for (t, d) in tlvs {
+                out.extend_from_slice(&t.to_be_bytes());
+                out.extend_from_slice(&(d.len() as u16).to_be_bytes());
+                out.extend_from_slice(&d);
+            }
+            Mutation::Append(out)
+        }),
+        1 => prop_oneof![Just(4usize), Just(8), Just(12), 1usize..16].prop_map(|n| Mutation::Append(vec![0u8; n])),
         2 => (any::<u16>(), any::<u8>()).prop_map(|(s, v)| Mutation::SetByte(s, v)),
         2 => (any::<u16>(), 0u8..8).prop_map(|(s, b)| Mutation::FlipBit(s, b)),
         2 => (0u8..4, prop_oneof![0u16..5, any::<u16>()]).prop_map(|(i, v)| Mutation::SetCount(i, v)),
